@@ -246,17 +246,20 @@ def auto_target(e):
 def export_many(pairs, ctx=None):
     """pairs: list of (expr, target | None | 'auto').  One index context for all."""
     ctx = ctx or IdxCtx()
+    prefrozen = ctx.frozen is not None
     prepared = []
     for e, target in pairs:
         if isinstance(target, str) and target == "auto":
             target = auto_target(e)
         s = to_sympy(e)
-        _walk_indices(s, ctx)
-        if target is not None:
-            for i in target:
-                ctx.note(i)
+        if not prefrozen:
+            _walk_indices(s, ctx)
+            if target is not None:
+                for i in target:
+                    ctx.note(i)
         prepared.append((s, target))
-    ctx.freeze()
+    if not prefrozen:
+        ctx.freeze()
     out = []
     for s, target in prepared:
         tg = None if target is None else {ctx.conv(i) for i in target}
@@ -356,3 +359,63 @@ def term_from_json(t):
 
 def expr_from_json(e):
     return [term_from_json(t) for t in e]
+
+
+# ------------------------------------------------------------------ operator expressions (C01)
+
+def conv_op(o, ctx):
+    if isinstance(o, Fd):
+        return {"cr": True, "i": list(ctx.conv(o.args[0]))}
+    if isinstance(o, F):
+        return {"cr": False, "i": list(ctx.conv(o.args[0]))}
+    raise Unsupported(f"operator {o!r}")
+
+
+def export_op_expr(e, ctx=None):
+    """sympy expression with F/Fd/NO factors (already expanded: an Add of Muls) -> list of op-term
+    dicts {"c","o","ops","x"} + the tuple-form pieces; summed indices by the Einstein convention over
+    tensors AND operators, restricted to indices that occur on at least one tensor."""
+    ctx = ctx or IdxCtx()
+    s = to_sympy(e)
+    if ctx.frozen is None:
+        _walk_indices(s, ctx)
+        ctx.freeze()
+    out = []
+    for t in Add.make_args(s):
+        coef = Fraction(1)
+        objs = []
+        items = []
+        op_idx = []
+        for f in Mul.make_args(t):
+            if isinstance(f, NO):
+                inner = f.args[0]
+                ops = [conv_op(o, ctx) for o in Mul.make_args(inner)]
+                items.append({"no": ops})
+                op_idx += [tuple(o["i"]) for o in ops]
+            elif isinstance(f, (F, Fd)):
+                o = conv_op(f, ctx)
+                items.append(o)
+                op_idx.append(tuple(o["i"]))
+            elif isinstance(f, Pow) and isinstance(f.args[0], (F, Fd, NO)):
+                raise Unsupported("power of an operator")
+            else:
+                c, os = conv_factor(f, ctx)
+                coef *= c
+                objs.extend(os)
+        counts = {}
+        on_tensor = set()
+        for o in objs:
+            for i in obj_indices(o):
+                counts[i] = counts.get(i, 0) + 1
+                on_tensor.add(i)
+        for i in op_idx:
+            counts[i] = counts.get(i, 0) + 1
+        contr = sorted(i for i, n in counts.items() if n > 1 and i in on_tensor)
+        out.append({"coef": coef, "objs": tuple(objs), "items": items, "contr": tuple(contr),
+                    "all_idx": set(counts)})
+    return out, ctx
+
+
+def j_op_expr(terms):
+    return [{"c": [t["coef"].numerator, t["coef"].denominator], "o": [j_obj(o) for o in t["objs"]],
+             "ops": t["items"], "x": [list(i) for i in t["contr"]]} for t in terms]
